@@ -357,6 +357,17 @@ func enumC12(quick bool) []detCase {
 		sizes["fat12"] = append(sizes["fat12"], 16*M-k*4096)
 		sizes["fat16"] = append(sizes["fat16"], 128*M-k*2048)
 	}
+	// each type's smallest sizes, sector by sector: whatever Create accepts there must be recognised again (FAT32: 32 reserved
+	// sectors + two one-sector FATs + the 32 KiB minimum data area = 98 sectors; FAT12 from a handful of sectors on)
+	for sct := int64(90); sct <= 106; sct++ {
+		sizes["fat32"] = append(sizes["fat32"], sct*512)
+	}
+	for sct := int64(2); sct <= 40; sct += 2 {
+		if quick && sct > 24 {
+			break
+		}
+		sizes["fat12"] = append(sizes["fat12"], sct*512)
+	}
 	if !quick {
 		for k := int64(0); k <= 12; k++ {
 			sizes["fat12"] = append(sizes["fat12"], 2*M-k*512, 4*M-k*1024, 8*M-512-k*2048)
